@@ -25,15 +25,13 @@ pub(crate) mod verif_step {
         let parked: bool = kani::any();
         let c0: usize = kani::any();
         kani::assume(c0 <= w);
-        let mut i = 0;
-        while i < NROWS {
+        rows!(i, {
             if i < fs {
                 scr.tags[i].set(T_LOG);
             } else if i <= R0 {
                 scr.tags[i].set(T_OLD);
             }
-            i += 1;
-        }
+        });
         if b > 0 {
             scr.row.set(R0);
             scr.col.set(c0);
@@ -114,15 +112,13 @@ pub(crate) mod verif_step {
         let last = last.as_usize();
 
         // (1) log rows untouched, (2) no remnant of the old frame anywhere
-        let mut i = 0;
-        while i < NROWS {
+        rows!(i, {
             if i < fs {
                 assert!(scr.tag(i) == T_LOG);
             } else {
                 assert!(scr.tag(i) != T_OLD);
             }
-            i += 1;
-        }
+        });
         // (3) layout from the origin: [shift blank rows] then every painted line with its wrapped height, in order
         let o = if pend { R0 + 1 } else { fs };
         let mut row = o;
@@ -149,11 +145,11 @@ pub(crate) mod verif_step {
                 k += 1;
             }
             // nothing below the frame
-            let mut i = row;
-            while i < NROWS {
-                assert!(scr.is_blank(i));
-                i += 1;
-            }
+            rows!(i, {
+                if i >= row {
+                    assert!(scr.is_blank(i));
+                }
+            });
             // (4) row accounting: exactly the painted bar rows (+ bottom padding) will be erased by the next draw
             assert!(last == bars + shift);
             // (5) cursor: parked at the right edge of the last painted row (next ordinary output starts on a fresh
@@ -176,22 +172,20 @@ pub(crate) mod verif_step {
             let first = cr + 1 - last;
             assert!(first >= scr.top());
             assert!(first >= fs);
-            let mut i = first;
-            while i <= cr {
-                let t = scr.tag(i);
-                assert!(t == T_BLANK || t == T_SPACE || (t >= b'A' && t <= b'D'));
-                i += 1;
-            }
+            rows!(i, {
+                if i >= first && i <= cr {
+                    let t = scr.tag(i);
+                    assert!(t == T_BLANK || t == T_SPACE || (t >= b'A' && t <= b'D'));
+                }
+            });
         }
         // every painted bar row is inside the erase range of the next draw
-        let mut i = 0;
-        while i < NROWS {
+        rows!(i, {
             let t = scr.tag(i);
             if t >= b'A' && t <= b'D' {
                 assert!(i + last > cr && i <= cr);
             }
-            i += 1;
-        }
+        });
         std::mem::forget(ds);
         let mut code = 0u32;
         if stop {
